@@ -5,16 +5,17 @@
 # /repo the same can be done in place: git -C /repo apply <patch>; ./check ...; git -C /repo checkout -- .)
 set -u
 patch="$(realpath "$1")"; tier="$2"; shift 2
-if [ ! -d /tmp/vmut ]; then git -C /repo worktree add --detach /tmp/vmut HEAD >/dev/null 2>&1 || exit 2; fi
-cd /tmp/vmut && git checkout -q --detach "$(git -C /repo rev-parse HEAD)" && git checkout -q -- . || exit 2
+VMUT="${VMUT:-/tmp/vmut}"   # a second scratch worktree (VMUT=/tmp/vmut2) lets two runs go on side by side
+if [ ! -d "$VMUT" ]; then git -C /repo worktree add --detach "$VMUT" HEAD >/dev/null 2>&1 || exit 2; fi
+cd "$VMUT" && git checkout -q --detach "$(git -C /repo rev-parse HEAD)" && git checkout -q -- . || exit 2
 if ! git apply "$patch" 2>/dev/null; then
   if ! git apply --3way "$patch" >/dev/null 2>&1; then echo "PATCH-DOES-NOT-APPLY $patch"; git reset -q --hard; exit 2; fi
   git reset -q
 fi
 cd /verif
 for p in "$@"; do
-  out=$(VERIF_REPO=/tmp/vmut ./check "$p" "$tier" 2>/dev/null); rc=$?
+  out=$(VERIF_REPO="$VMUT" ./check "$p" "$tier" 2>/dev/null); rc=$?
   echo "=== $p ($tier) $(basename $(dirname $patch)) exit=$rc"
   echo "$out" | grep -E "VIOLATION|HELD|INCONCLUSIVE|^  \[" | cut -c1-260 | head -8
 done
-cd /tmp/vmut && git checkout -q -- .
+cd "$VMUT" && git checkout -q -- .
